@@ -755,46 +755,6 @@ def classify(p, executor_name, optimize):
                 d = _insert_before(desc, j, 0, {"op": "conj", "family": "unary", "params": {"_k": "unary"}})
                 if _variant_passes(p, d, executor_name, optimize):
                     return "vecdot-complex-no-conj"
-    # 4. a negative-step slice after an integer index: index() flips the axis numbered as in the *input*
-    for j, o in enumerate(desc["ops"]):
-        if o["op"] == "index":
-            key = o["params"]["key"]
-            seen_int = False
-            trig = False
-            for k in key:
-                if k["t"] == "int":
-                    seen_int = True
-                elif k["t"] == "slice" and (k["v"][2] or 1) < 0 and seen_int:
-                    trig = True
-            if trig:
-                # counterfactual: integers written as length-1 slices followed by squeeze (same NumPy value)
-                import copy
-                x = vals[o["in"][0]]
-                key2, sq, dim = [], [], 0
-                ok = True
-                for k in key:
-                    if k["t"] == "int":
-                        v = k["v"] if k["v"] >= 0 else k["v"] + x.shape[dim]
-                        key2.append({"t": "slice", "v": [v, v + 1, 1]})
-                        sq.append(dim)
-                        dim += 1
-                    elif k["t"] in ("slice", "array"):
-                        key2.append(k)
-                        dim += 1
-                    else:
-                        ok = False
-                if ok and sq:
-                    d = copy.deepcopy(desc)
-                    d["ops"][j]["params"]["key"] = key2
-                    tgt = ni + j
-                    for o2 in d["ops"]:
-                        o2["in"] = [v + 1 if v > tgt else v for v in o2["in"]]
-                    d["outputs"] = [v + 1 if v >= tgt else v for v in d["outputs"]]
-                    d["ops"].insert(j + 1, {"op": "squeeze", "family": "squeeze", "in": [tgt], "params": {"axis": sq}})
-                    for o2 in d["ops"][j + 2:]:
-                        o2["in"] = [tgt + 1 if v == tgt else v for v in o2["in"]]
-                    if _variant_passes(p, d, executor_name, optimize):
-                        return "index-negstep-after-int"
     # 6. hypot of integer arrays declares an integer result: the float values are truncated
     for j, o in enumerate(desc["ops"]):
         if o["op"] == "hypot" and o["params"].get("_k") == "binary":
@@ -924,6 +884,18 @@ def report_failure(ctx, p, ex, opt, detail, max_evals=250):
              key=key)
 
 
+# defects that were repaired in /repo (fix: commits): their former triggers must now compute the NumPy value
+FIXED_TRIGGERS = {
+    # 2fe4874 "fix: flip the right axis when a negative-step slice follows an integer index"
+    "index-negstep-after-int": {"inputs": [{"shape": [2, 3, 4], "chunks": [1, 2, 3], "dtype": "int64", "data": "arange", "salt": 0}],
+                                "ops": [{"op": "index", "family": "index", "in": [0], "params": {"key": [{"t": "int", "v": 0}, {"t": "slice", "v": [None, None, -1]}, {"t": "slice", "v": [None, None, None]}]}}],
+                                "outputs": [1]},
+    "index-negstep-after-two-ints": {"inputs": [{"shape": [2, 3, 4, 5], "chunks": [1, 2, 3, 2], "dtype": "int64", "data": "arange", "salt": 0}],
+                                     "ops": [{"op": "index", "family": "index", "in": [0], "params": {"key": [{"t": "int", "v": 1}, {"t": "slice", "v": [None, None, -2]}, {"t": "int", "v": -1}, {"t": "slice", "v": [4, 0, -1]}]}}],
+                                     "outputs": [1]},
+}
+
+
 def known_triggers(ctx):
     """Re-verify the listed defects on their minimal triggers (so that a fix shows up as a changed status)."""
     import exprgen
@@ -935,9 +907,6 @@ def known_triggers(ctx):
                                "ops": [{"op": "qr", "family": "qr", "in": [0], "params": {"part": "recon"}}], "outputs": [1]},
         "vecdot-complex-no-conj": {"inputs": [{"shape": [2], "chunks": [1], "dtype": "complex128", "data": "arange", "salt": 0}],
                                    "ops": [{"op": "vecdot", "family": "vecdot", "in": [0, 0], "params": {"axis": -1}}], "outputs": [1]},
-        "index-negstep-after-int": {"inputs": [{"shape": [2, 3, 4], "chunks": [1, 2, 3], "dtype": "int64", "data": "arange", "salt": 0}],
-                                    "ops": [{"op": "index", "family": "index", "in": [0], "params": {"key": [{"t": "int", "v": 0}, {"t": "slice", "v": [None, None, -1]}, {"t": "slice", "v": [None, None, None]}]}}],
-                                    "outputs": [1]},
         "hypot-int-truncated": {"inputs": [{"shape": [2], "chunks": [1], "dtype": "int64", "data": "arange", "salt": 3}],
                                 "ops": [{"op": "hypot", "family": "binary", "in": [0, 0], "params": {"_k": "binary"}}], "outputs": [1]},
         "var-negative-dof": {"inputs": [{"shape": [1, 1], "chunks": [1, 1], "dtype": "float64", "data": "arange", "salt": 0}],
@@ -953,6 +922,13 @@ def known_triggers(ctx):
             ctx.fail("known trigger still fails: %s" % det, {"program": d, "executor": "single-threaded", "optimize_graph": True}, key=k)
         else:
             ctx.notes.append("known trigger %s now gives status %s (defect repaired? update KNOWN_FINDINGS / model)" % (key, st))
+    for name, d in FIXED_TRIGGERS.items():
+        p = exprgen.Program.from_description(d)
+        for ex, opt in (("single-threaded", True), ("threads", False)):
+            st, det = run_program(p, ex, opt)
+            ctx.count({"fixed_trigger": name, "executor": ex, "status": st}, nontrivial=True, kind="fixed-trigger:" + st)
+            if st != "ok":
+                ctx.fail("repaired defect is back (%s): status %s %s" % (name, st, det or ""), {"program": d, "executor": ex, "optimize_graph": opt}, key=None)
 
 
 def replay(ctx, body):
